@@ -31,7 +31,7 @@ class CustomReason(Exception):
 class Stop:
     """One stop fault for one request, drawn from the schedule tape."""
 
-    def __init__(self, sim, tape, i, rs, req, rr, kind):
+    def __init__(self, sim, tape, i, rs, req, rr, kind, stopat=None):
         self.sim = sim
         self.kind = kind
         self.req = req
@@ -71,12 +71,39 @@ class Stop:
                 self.reason = {"why": f"stop-{i}"}
             when = tape.weighted((2, 2, 2, 2, 1, 1, 1, 1), "abort_when")
             not_before = (0, 1, 2, 3, 5, 8, 13, 21)[when] + tape.draw(3, "abort_jit")
-            sim.action(f"abort:{i}", self._abort, not_before=not_before, owner=i)
         if kind != "abort" and tape.draw(3, "idle_signal") == 0:
             # an abort signal that is passed but never triggered: every awaitable is raced
             # against it all the same, and the waiters must not outlive the execution
             self.controller = AbortController()
             self.idle_signal = True
+        # stop-instant sweep: the draws above are those of the base run (so the schedule is the
+        # same up to the stop); only the stop itself is replaced
+        self.close_fut = None
+        if stopat:
+            if stopat[0] == 4 or len(stopat) < 2 or stopat[1] <= 0:
+                if self.kind == "abort":
+                    self.idle_signal = True
+                self.kind = "none"
+            elif stopat[0] == 2:
+                if self.kind == "abort":
+                    self.idle_signal = True
+                self.kind = "aclose"
+                self.close_after = 999
+                self.close_delay = False
+                self.close_fut = sim.loop.create_future()
+                sim.action(f"closegate:{i}",
+                           lambda f=self.close_fut: f.done() or f.set_result(None),
+                           not_before=stopat[1], owner=i)
+            elif stopat[0] == 3:
+                self.kind = "abort"
+                self.idle_signal = False
+                if self.controller is None:
+                    self.controller = AbortController()
+                if self.reason_kind is None:
+                    self.reason_kind = "default"
+                not_before = stopat[1]
+        if self.kind == "abort":
+            sim.action(f"abort:{i}", self._abort, not_before=not_before, owner=i)
 
     def on_stop(self):
         if not self.freeze:
@@ -145,7 +172,9 @@ class Stop:
         return kw
 
     def close_now(self, k):
-        if self.kind == "aclose" and k == self.close_after:
+        if self.kind == "aclose" and (k == self.close_after or (
+                self.close_fut is not None and self.close_fut.done())):
+            self.close_after = k
             self.on_stop()
             return True
         return False
@@ -524,15 +553,33 @@ def run_unit(seed=None, unit=None, tier="quick", stats=None):
     digests = [scn.digest(), stop_kind]
     sched_tapes = []
     n = n_sched if sched_values is None else len(sched_values)
-    for r in range(n):
-        st = (Tape(values=sched_values[r]) if sched_values is not None
-              else Tape((seed, "sched", r)))
-        sched_tapes.append(st)
+    # stop-instant sweep (DESIGN §4-C06): stopat = [2, t] closes the payload stream at the
+    # consumer's first opportunity at or after loop iteration t, [3, t] aborts at iteration t,
+    # [4] disables the stop (base run); given by a replayed unit, or walked below for selected
+    # units over every iteration of schedule 0
+    stopat = list(unit.get("stopat") or ()) if unit is not None else []
+    sweep_queue = []
+    sweep_hit = None
+    sweep_base = None
+    r = -1
+    while True:
+        r += 1
+        if r >= n:
+            if not sweep_queue:
+                break
+            stopat = sweep_queue.pop(0)
+            st = Tape(values=sweep_base)
+            bump(stats, "probes", "stop_instant_sweep_runs")
+        else:
+            st = (Tape(values=sched_values[r]) if sched_values is not None
+                  else Tape((seed, "sched", r)))
+            sched_tapes.append(st)
 
-        def factory(sim, tape, i, rs, req, rr, stop_kind=stop_kind, focus=focus):
-            stop = Stop(sim, tape, i, rs, req, rr, stop_kind)
+        def factory(sim, tape, i, rs, req, rr, stop_kind=stop_kind, focus=focus, stopat=stopat):
+            stop = Stop(sim, tape, i, rs, req, rr, stop_kind, stopat=stopat)
             if focus == "earlyclose":
-                stop.close_after = min(stop.close_after, 1)
+                if not stopat:
+                    stop.close_after = min(stop.close_after, 1)
                 stop.freeze = True
             return stop
 
@@ -562,7 +609,7 @@ def run_unit(seed=None, unit=None, tier="quick", stats=None):
         account(stats, sim, knobs, al, results)
         vs = evaluate(sim, scn, reqs, results, stops, status, knobs, stats)
         if stats is not None:
-            bump(stats, "stops", stop_kind)
+            bump(stats, "stops", stops[0].kind if stops and stops[0] else stop_kind)
             for stp, rr in zip(stops, results):
                 if stp.idle_signal:
                     bump(stats, "knobs", "abort_signal_passed_never_triggered")
@@ -616,9 +663,34 @@ def run_unit(seed=None, unit=None, tier="quick", stats=None):
                             "hook_calls": stops[0].hook_calls},
                 "decision_trace": [[p, f] for p, f in sim.decision_trace[:10]],
             }
+        polls = sim.poll
         sim.close()
+        if r >= n:
+            if vs:
+                # found by the sweep: the replay is the base schedule plus the stop instant
+                for v in vs:
+                    v.fingerprint["sweep"] = True
+                    v.detail["stopat"] = list(stopat)
+                sched_tapes = [st]
+                sweep_hit = list(stopat)
+                break
+            if stopat[0] == 4 or stopat[1] >= 10 ** 6:
+                # the base run (no stop): every iteration of it is a stop instant
+                tmax = min(polls, 24 if tier == "quick" else 64)
+                kinds_ = (3,) if stop_kind == "abort" else (2, 3)
+                sweep_queue = [[k_, t] for t in range(1, tmax + 1) for k_ in kinds_]
+            elif not sweep_queue:
+                bump(stats, "probes", "stop_instant_sweeps_completed")
+        elif (r == n - 1 and unit is None and not violations and sched_tapes
+              and seed is not None and seed[2] % 16 == 2):
+            sweep_base = sched_tapes[0].used()
+            # (hanging externals were planted when an abort is planned: the base run of such a
+            # unit aborts once nothing else can happen)
+            sweep_queue = [[3, 10 ** 6]] if stop_kind == "abort" else [[4]]
     info["unit"] = {"world": "W1", "plan": ptape.used(), "scheds": [t.used() for t in sched_tapes],
                     "focus": focus}
+    if sweep_hit or (unit is not None and unit.get("stopat")):
+        info["unit"]["stopat"] = sweep_hit or list(unit["stopat"])
     info["digest"] = digest_of(digests)
     info["render"] = dict(scn.render(), stop_kind=stop_kind)
     return violations, info
